@@ -23,6 +23,7 @@ a fresh object, i.e. nothing given to one call may leak into a later one.
 """
 import contextlib
 import io
+import itertools
 import os
 import shutil
 import tempfile
@@ -78,6 +79,13 @@ def option_points(case, tier):
         dims = ['cd', 'ct', 'co'] + (['cx'] if ENTRY[e]['cx'] else [])
         pts = list(A.option_product(dims, values)) + \
             list(A.option_star(['sort', 'cond', 'prec', 'tm'], values))
+    elif kind == 'neut':
+        # full product of the menus of the options that neutralise the
+        # deviations of the case
+        menu = case['menu']
+        dims = [d for d in A.DIMS if d in menu]
+        pts = [A.opts_with(**dict(zip(dims, combo))) for combo in
+               itertools.product(*[menu[d] for d in dims])]
     elif kind == 'default':
         pts = [dict(A.DEFAULT_OPTS)]
     elif kind == 'star':
@@ -299,6 +307,18 @@ def gen_cases(tier, layer):
                     continue
                 for e in (('mem', 'chk') if th else ()) + PARQUET_ENTRIES:
                     yield {'e': e, 'f': fr, 'd': [d], 'os': oset(d)}
+    elif layer == 'L2-option-pairs':
+        # two (three) deviations, each neutralised by a different option:
+        # the comparison passes iff every one of those options is honoured
+        entries = ('chk', 'mem', 'disk', 'pq', 'dcsv')
+        for (refname, devs, menu) in A.neutral_combos(2):
+            for e in entries:
+                yield {'e': e, 'f': A.PAIR_REFS[refname], 'd': devs,
+                       'os': 'neut', 'menu': menu}
+        for (refname, devs, menu) in A.neutral_combos(3):
+            for e in (entries if th else ('chk',)):
+                yield {'e': e, 'f': A.PAIR_REFS[refname], 'd': devs,
+                       'os': 'neut', 'menu': menu}
     elif layer == 'H2-histories':
         for i in range(len(A.hist_menu('full'))):
             yield {'k': 'hist', 'menu': 'full', 'prefix': [i]}
@@ -339,7 +359,14 @@ class C05(Check):
             'combination of check_data/check_types/check_order(/check_extra_'
             'cols) in {None, False, list, function} through all ten entry '
             'points, so that a mix-up of two pass-through keywords changes a '
-            'verdict); plus E3 histories: every sequence of 2 (thorough also '
+            'verdict; L2-option-pairs: every pair / triple of deviations '
+            'that one option each neutralises (reversed / rotated rows <-> '
+            'sortby; rows excluded by the condition added at the front, end '
+            'or middle of one side only <-> condition; float delta <-> '
+            'precision; dtype <-> check_types / type_matching; swap <-> '
+            'check_order; extra column <-> check_extra_cols; cell <-> '
+            'check_data) x the full product of the neutralising menus); '
+            'plus E3 histories: every sequence of 2 (thorough also '
             '3) comparisons from a menu of 76 (44) ops on ONE ReferenceTest / '
             'PandasComparison object, rebuilt from a fresh object per '
             'history, each verdict compared with the model and with the same '
@@ -384,6 +411,11 @@ class C05(Check):
         L.append(('L1-xfiles', 'one structural deviation x every combination '
                   'of the per-kind column selections, through all ten entry '
                   'points (eight of them file based)'))
+        L.append(('L2-option-pairs', 'two / three deviations each '
+                  'neutralised by a different option (sortby, value-based '
+                  'condition with excluded rows on one side only, precision, '
+                  'check_* selections, type_matching): full product of the '
+                  'neutralising menus; passes iff every option is honoured'))
         L.append(('H2-histories', 'E3: every sequence of two comparisons from '
                   'the history menu on one ReferenceTest / PandasComparison '
                   'object; each verdict = model = verdict on a fresh object'))
